@@ -144,7 +144,7 @@ CHECKS = {
                 "caller byte buffers claim alignment 1 (N0 and -O3) and are one byte wide (N0); nothing is written through a pointer-to-const parameter. (SHIFT) shift amounts below the width "
                 "(constants exactly, variables by known-bits range). (EXACT) AEAD/SIV write exactly mlen+8 / clen-8 bytes per path class, refusals write nothing; wipes and hash_update never touch "
                 "bytes outside the declared range for every length/alignment class (D-COV, one-sided). (ASM) stores/loads of the 27 assembly programs stay in the state words / frame. "
-                "Plus compile-fail witnesses. (ALIGN) no access through a pointer parameter claims more than 8-byte alignment. A wide access to a caller byte buffer is accepted when dominated by a test of that buffer's address, or when D-COV computes its address to be a multiple of the width in every (alignment, length) class; where the affine analysis has no trip count (a loop that tests the cursor's alignment) the bounds clause falls back to D-COV's per-class coverage.",
+                "Plus compile-fail witnesses. (ALIGN) no access through a pointer parameter claims more than 8-byte alignment. A wide access to a caller byte buffer is accepted when dominated by a test of that buffer's address, or when D-COV computes its address to be a multiple of the width in every (alignment, length) class; where the affine analysis has no trip count (a loop that tests the cursor's alignment) the bounds clause falls back to D-COV's per-class coverage. R-C06-DEFINED: the buffer the PRNG initialisers and reseed hand to the entropy source is defined before the request (a short delivery leaves no uninitialised byte in what is hashed).",
         "note": "Modular: inside a function pointer parameters have the documented sizes (contract table = trusted transcription of TinyJAMBU.h); undecided side conditions (no-wrap without a "
                 "parameter-only witness, variable shifts, nsw on opaque operands, exact ranges of functions whose shape the mode summaries do not recognise) are listed in the evidence, not reported; "
                 "an access that can be neither proven nor refuted makes the check exit 2. -O3 objects only for alignment claims; gcc not covered.",
